@@ -66,6 +66,7 @@ func (ch *c20Chain) lightBlock(h int64) *types.LightBlock {
 
 func (p *c20Provider) LightBlock(_ context.Context, height int64) (*types.LightBlock, error) {
 	p.calls++
+	reqH := height // 0 = "the latest"
 	if height == 0 {
 		height = p.ch.tip
 	}
@@ -77,9 +78,9 @@ func (p *c20Provider) LightBlock(_ context.Context, height int64) (*types.LightB
 	}
 	lb := p.ch.lightBlock(height)
 	switch {
-	case p.lie != nil && height == p.lieH && p.served == 0:
+	case p.lie != nil && reqH == p.lieH && p.served == 0:
 		p.served++
-		lb = p.lie(height, lb)
+		lb = p.lie(reqH, lb)
 	case p.persona == "break" && p.lie != nil && height == p.ch.tip-1:
 		// a header that is well formed but is not the parent of the trusted header
 		x := c20LBFrom(lb)
@@ -87,7 +88,7 @@ func (p *c20Provider) LightBlock(_ context.Context, height int64) (*types.LightB
 		x.commit.BlockID.Hash = x.hdr.Hash()
 		lb = x.build()
 	}
-	if lb.Height != height {
+	if reqH != 0 && lb.Height != height {
 		return nil, provider.ErrBadLightBlock{Reason: fmt.Errorf("height %d responded doesn't match height %d requested", lb.Height, height)}
 	}
 	if err := lb.ValidateBasic(p.ch.desc.ID); err != nil {
@@ -836,6 +837,9 @@ func c20OtherArg(a c20Arg, oh int64) c20Arg {
 }
 
 func (ch *c20Chain) honestBlock(a c20Arg) (*ctypes.ResultBlock, error) {
+	if a.H == 0 {
+		a.H = ch.tip
+	}
 	if a.H < 1 || a.H > ch.tip {
 		return nil, fmt.Errorf("no block %d", a.H)
 	}
@@ -848,6 +852,8 @@ func (be *c20Backend) block(byHash bool) (*ctypes.ResultBlock, error) {
 	var err error
 	if byHash {
 		res, err = core.BlockByHash(c20RCtx, ch.blockStore.LoadBlockMeta(a.H).BlockID.Hash)
+	} else if a.H == 0 {
+		res, err = core.Block(c20RCtx, nil) // the latest
 	} else {
 		res, err = core.Block(c20RCtx, &a.H)
 	}
@@ -947,7 +953,15 @@ func (be *c20Backend) ABCIQueryWithOptions(_ context.Context, path string, data 
 	return res, nil
 }
 
+// Status: only what light/rpc Client.BlockResults(nil) reads
+func (be *c20Backend) Status(context.Context) (*ctypes.ResultStatus, error) {
+	return &ctypes.ResultStatus{SyncInfo: ctypes.SyncInfo{LatestBlockHeight: be.ch.tip}}, nil
+}
+
 func (ch *c20Chain) honestResults(a c20Arg) (*ctypes.ResultBlockResults, error) {
+	if a.H == 0 {
+		a.H = ch.tip - 1
+	}
 	if a.H < 1 || a.H > ch.tip-1 {
 		return nil, fmt.Errorf("no block %d", a.H)
 	}
